@@ -5519,12 +5519,14 @@ def symlink_to_bytes(symlink_target):
      The UDF data corresponding to the symlink.
     """
     symlink_data = bytearray()
-    for comp in symlink_target.split('/'):
+    for index, comp in enumerate(symlink_target.split('/')):
         if comp == '':
-            # If comp is empty, then we know this is the leading slash
-            # and we should make an absolute entry (double slashes and
-            # such are weeded out by the earlier utils.normpath).
-            symlink_data.extend(b'\x02\x00\x00\x00')
+            # An empty component at the start is the leading slash, for
+            # which we make an absolute entry.  Anywhere else it comes from
+            # a doubled or trailing slash, which names nothing; a root
+            # component there would turn the rest into an absolute path.
+            if index == 0:
+                symlink_data.extend(b'\x02\x00\x00\x00')
         elif comp == '.':
             symlink_data.extend(b'\x04\x00\x00\x00')
         elif comp == '..':
